@@ -79,6 +79,9 @@ type Scenario struct {
 	// (UnmarshalBebop, result ignored), and is then handed to the decoder under test.
 	Reuse   bool   `json:"reuse,omitempty"`
 	Prefill []byte `json:"prefill,omitempty"`
+	// SpareCap: the byte decoder's input is a short view of a larger buffer: the rest of the
+	// valid encoding sits in its spare capacity (len = Cut, cap = the complete length).
+	SpareCap bool `json:"spare_cap,omitempty"`
 	// EncOps: a history of EncodeBebop calls by one or two callers onto two destinations
 	EncOps   []EncOp           `json:"enc_ops,omitempty"`
 	Input    []byte            `json:"input,omitempty"` // explicit bytes (corruption scenarios)
